@@ -465,14 +465,14 @@ bool SPxLPBase<Rational>::readLPF(
          if(strlen(buf) == (size_t) buf_size - 1)
          {
             buf_pos = buf_size - 1;
-            buf_size = buf_size + SOPLEX_LPF_MAX_LINE_LEN;
 
-            if(buf_size >= INT_MAX)
+            if(buf_size > INT_MAX - SOPLEX_LPF_MAX_LINE_LEN)
             {
                SPX_MSG_ERROR(std::cerr << "ELPFRD16 Line longer than INT_MAX" << std::endl;)
                goto syntax_error;
             }
 
+            buf_size = buf_size + SOPLEX_LPF_MAX_LINE_LEN;
             spx_realloc(buf, buf_size);
          }
          else
